@@ -1,4 +1,5 @@
 """C17: time conversions — every representation of an instant against the integer model."""
+import math
 import re
 import subprocess
 import sys
@@ -13,6 +14,7 @@ ASSUMPTIONS = [
     "Python's datetime.fromisoformat / strftime string <-> field conversion is not modelled: a string is represented by the fields it spells (the harness builds and parses the strings)",
     "float epoch seconds are generated with dyadic fractions so that Python's round-half-even to microseconds is exact; the expected microsecond count is computed with exact fractions",
     "numpy datetime64 unit casts floor to whole seconds (counts are >= 0 in the property's range 1970..2100)",
+    "instants before 1970 with a fractional second: to_datetime64 keeps the whole second towards 1970 (int() of a negative timestamp), not the floor; the property promises whole seconds only, the oracle follows the code",
     "tools/py2lean.py (130 lines) translates time_from_timeint/date_from_dateint faithfully: Python int = Lean Int, `//` by a positive literal = Int floor division",
 ]
 
@@ -173,6 +175,55 @@ def check_conversions(run, drv, tm, ncases):
     run.case("none", key="none")
 
 
+def check_numeric_and_early(run, tm, ncases):
+    """Epoch seconds held in numeric arrays / DataArrays / Series (int and float dtype), and instants before 1970
+    (negative epoch seconds, whole and fractional), against Python's own calendar arithmetic."""
+    import pandas as pd
+    import xarray
+    rng = run.rng
+    for case in range(ncases):
+        early = case % 2 == 1
+        base = rng.randint(-2208988800, -1) if early else rng.randint(0, 4102444799)        # 1900 .. 1970 | 1970 .. 2100
+        secs = [base + rng.randint(0, 100000) * (1 if not early else -1) for _ in range(3)]
+        fracs = [rng.choice([0, 0.5, 0.25, 0.75, 0.125]) for _ in range(3)]
+        want_int = [EPOCH + timedelta(seconds=sv) for sv in secs]
+        want_flt = [EPOCH + timedelta(seconds=sv) + timedelta(microseconds=int(fr * 1_000_000)) for sv, fr in zip(secs, fracs)]
+        run.count("early_instants" if early else "late_instants")
+        # scalars
+        for sv, fr, wi, wf in zip(secs, fracs, want_int, want_flt):
+            for kind, rep, want in (("epoch_int", int(sv), wi), ("epoch_float", float(sv) + fr, wf)):
+                run.case("epoch_scalar", key=(case, kind, sv))
+                got = tm.to_datetime_utc(rep)
+                if got != want or got.utcoffset() != timedelta(0):
+                    run.violation("epoch seconds convert to a different instant", dict(kind=kind, rep=rep, got=got.isoformat(), want=want.isoformat()))
+                s = tm.datetime_to_iso_time_string(rep)
+                if tm.to_datetime_utc(s) != want:
+                    run.violation("formatting as ISO and parsing again changes the instant", dict(kind=kind, rep=rep, s=s))
+                d64 = tm.to_datetime64(rep)
+                whole = EPOCH + timedelta(seconds=math.trunc(float(sv) + (fr if kind == "epoch_float" else 0)))     # toward 1970, as coded
+                if tm.to_datetime_utc(d64) != whole:
+                    run.violation("datetime64 round trip does not return the whole second of the instant",
+                                  dict(kind=kind, rep=rep, back=tm.to_datetime_utc(d64).isoformat(), want=whole.isoformat()))
+        # array-likes of numbers
+        ai = np.array(secs, dtype="int64")
+        af = np.array([sv + fr for sv, fr in zip(secs, fracs)], dtype="float64")
+        for label, seq, want in (("int ndarray", ai, want_int), ("float ndarray", af, want_flt),
+                                 ("DataArray of floats", xarray.DataArray(af, dims="time"), want_flt),
+                                 ("DataArray of ints", xarray.DataArray(ai, dims="time"), want_int),
+                                 ("Series of ints", pd.Series(ai), want_int), ("Series of floats", pd.Series(af), want_flt),
+                                 ("list of floats", [float(v) for v in af], want_flt), ("tuple of ints", tuple(int(v) for v in ai), want_int)):
+            run.case("epoch_array", key=(case, label))
+            got = tm.to_datetime_utc(seq)
+            if list(got) != want:
+                run.violation("an array-like of epoch seconds is not converted element-wise to the same instants",
+                              dict(container=label, values=[float(v) for v in np.asarray(seq, dtype=float)], got=[g.isoformat() for g in got]))
+            d64 = np.asarray(tm.to_datetime64(seq))
+            want64 = np.array([np.datetime64(int(math.trunc((w - EPOCH).total_seconds())), "s") for w in want]).astype("datetime64[ns]")
+            if d64.dtype != np.dtype("<M8[ns]") or not np.array_equal(d64, want64):
+                run.violation("to_datetime64 of an array-like of epoch seconds denotes other instants",
+                              dict(container=label, values=[float(v) for v in np.asarray(seq, dtype=float)], got=[str(v) for v in d64], want=[str(v) for v in want64]))
+
+
 def check_packed(run, drv, tm, thorough):
     rng = run.rng
     # times
@@ -214,7 +265,11 @@ def check_packed(run, drv, tm, thorough):
     for (t, d), o in zip(days, outs):
         run.case("dateint", key=t)
         v = list(map(int, o.split()))
-        impl = tm.date_from_dateint(t)
+        try:
+            impl = tm.date_from_dateint(t)
+        except Exception as e:
+            run.violation("a valid packed date (yyyymmdd or yymmdd) is rejected", dict(t=t, error=repr(e)))
+            continue
         if (impl.year, impl.month, impl.day) != (d.year, d.month, d.day) or impl.utcoffset() != timedelta(0):
             run.violation("packed date decodes to the wrong UTC calendar fields", dict(t=t, got=impl.isoformat()))
         if [impl.year, impl.month, impl.day] != v[:3] or v[:3] != v[3:]:
@@ -260,8 +315,12 @@ def main(prop, tier, seed):
         aud["problems"].append(f"driver unavailable: {e}")
     if drv is not None:
         try:
-            check_conversions(run, drv, tm, 6000 if thorough else 500)
-            check_packed(run, drv, tm, thorough)
+            with common.guard(run, "time conversions"):
+                check_conversions(run, drv, tm, 6000 if thorough else 500)
+            with common.guard(run, "numeric arrays and instants before 1970"):
+                check_numeric_and_early(run, tm, 400 if thorough else 60)
+            with common.guard(run, "packed integers"):
+                check_packed(run, drv, tm, thorough)
         finally:
             drv.close()
     return run.finish(aud, ASSUMPTIONS, RULE)
